@@ -370,6 +370,12 @@ def r_writer_validates(ctx):
                        "%s: the writer state is touched (%s) before validate_tag_path has been consulted" % (inst, [(m[0], m[1]) for m in first_unvalidated][:3]))
         else:
             rep.oblige(bool(muts), key + "|anchor", "src/tag_writer.rs", "%s: no writer action observed (anchor)" % inst)
+        if form == "Full":
+            # the children of a Full master are tags like any other: they must go through the validating entry (the recursive write() that this
+            # analysis summarises), not through a private routine behind the path check
+            rec = [1 for (k, d, g) in run.events if k == "recursive-write"]
+            rep.oblige(bool(rec), key + "|children-validated", "src/tag_writer.rs",
+                       "%s: the children of a Full master are not written through write()/write_advanced(), which is where the path check lives" % inst)
         # rejection: forced false result
         if must:
             run2 = WriterRun(prog, entry, tag_type=t, form=form, unknown=unknown, validate_result=False).run()
